@@ -1,6 +1,7 @@
 package engine
 
 import (
+	"github.com/nspcc-dev/neo-go/pkg/vm/stackitem"
 	"fmt"
 	"math/bits"
 
@@ -33,6 +34,7 @@ func payProbe() *Compiled {
 
 type gasModel struct {
 	gasU, gasC, gasP, gasX int64
+	cfee                   int64 // the candidate fee in force
 	gasW                   int64 // a user who holds one unit less than the withdrawal fees at the initial setting
 	gasIR                  []int64
 	fee                    int64
@@ -92,7 +94,9 @@ func NewGasDriver(notary bool, n int) *GasDriver {
 	if notary || n == 1 {
 		add(gasOp{kind: "cheque", amt: 1, signer: "AL"}, gasOp{kind: "cheque", amt: 3, signer: "AL"}, gasOp{kind: "cheque", amt: 3, signer: "S"}, gasOp{kind: "cheque", amt: 3, signer: "U"},
 			gasOp{kind: "cheque", amt: 2 * maxDeposit, signer: "AL"},
-			gasOp{kind: "setFee", amt: 0, signer: "AL"}, gasOp{kind: "setFee", amt: 2, signer: "AL"}, gasOp{kind: "setFee", amt: 2, signer: "S"}, gasOp{kind: "candRm", signer: "AL"})
+			gasOp{kind: "setFee", amt: 0, signer: "AL"}, gasOp{kind: "setFee", amt: 2, signer: "AL"}, gasOp{kind: "setFee", amt: 2, signer: "S"}, gasOp{kind: "candRm", signer: "AL"},
+			// the candidate fee changed after deployment: to nothing, and to more than the candidate holds
+			gasOp{kind: "setCandFee", amt: 0, signer: "AL"}, gasOp{kind: "setCandFee", amt: 2 * candFee, signer: "AL"})
 	}
 	if notary && n/2+1 != n*2/3+1 {
 		// the committee-majority account and a single member are not the Alphabet (2/3+1) account
@@ -117,7 +121,7 @@ func (d *GasDriver) Build() *World {
 	w := NewWorld(d.N)
 	d.u, d.s, d.x = w.Acct("U"), w.Acct("S"), w.Acct("X")
 	w.FundGAS(d.u.Hash, 40000*gasUnit)
-	w.FundGAS(d.x.Hash, 10*gasUnit)
+	w.FundGAS(d.x.Hash, 2*candFee-1) // the candidate can pay the initial fee once, and not a doubled one
 	// W can pay all withdrawal fees but the last unit (7 per payee: Processing with Notary, every stored key without)
 	d.wp = w.Acct("W")
 	payees := int64(1)
@@ -155,7 +159,7 @@ func (d *GasDriver) Build() *World {
 }
 
 func (d *GasDriver) Init(w *World) Model {
-	m := &gasModel{fee: 7, votes: map[string]uint8{}}
+	m := &gasModel{fee: 7, cfee: candFee, votes: map[string]uint8{}}
 	m.gasU, m.gasX = gasOf(w, w.Root, d.u.Hash), gasOf(w, w.Root, d.x.Hash)
 	m.gasW = gasOf(w, w.Root, d.wp.Hash)
 	for _, a := range d.ir {
@@ -179,6 +183,8 @@ func (d *GasDriver) OpName(_ *Node, i int) string {
 		return fmt.Sprintf("cheque(id,U,%d) by %s", o.amt, o.signer)
 	case "setFee":
 		return fmt.Sprintf("setConfig(WithdrawFee=%d) by %s", o.amt, o.signer)
+	case "setCandFee":
+		return fmt.Sprintf("setConfig(InnerRingCandidateFee=%d) by %s", o.amt, o.signer)
 	case "candAdd":
 		return "innerRingCandidateAdd(X) by " + o.signer
 	}
@@ -352,15 +358,25 @@ func (d *GasDriver) Step(x *Exec, n *Node, i int) StepResult {
 			nm.fee = o.amt
 			expN = []Notif{{"neofs", "SetConfig", []any{NXs(fmt.Sprintf("fee-%d", o.amt)), NXs("WithdrawFee"), NX(val)}}}
 		}
+	case "setCandFee":
+		val, _ := stackitem.Make(o.amt).TryBytes()
+		scr = Script(h, "setConfig", []byte(fmt.Sprintf("cfee-%d", o.amt)), []byte("InnerRingCandidateFee"), val)
+		if !alpha {
+			expHalt = false
+		} else if !decided(fmt.Sprintf("cfee-%d", o.amt)) {
+		} else {
+			nm.cfee = o.amt
+			expN = []Notif{{"neofs", "SetConfig", []any{NXs(fmt.Sprintf("cfee-%d", o.amt)), NXs("InnerRingCandidateFee"), NX(val)}}}
+		}
 	case "candAdd":
 		scr = Script(h, "innerRingCandidateAdd", d.x.Pub())
-		if o.signer != "X" || m.cand || m.gasX < candFee {
+		if o.signer != "X" || m.cand || m.gasX < m.cfee {
 			expHalt = false
 		} else {
 			nm.cand = true
-			nm.gasX -= candFee
-			nm.gasC += candFee
-			expN = []Notif{{"GAS", "Transfer", []any{gx(d.x.Hash.BytesBE()), gx(h.BytesBE()), NI(candFee)}}}
+			nm.gasX -= m.cfee
+			nm.gasC += m.cfee
+			expN = []Notif{{"GAS", "Transfer", []any{gx(d.x.Hash.BytesBE()), gx(h.BytesBE()), NI(m.cfee)}}}
 		}
 	case "candRm":
 		scr = Script(h, "innerRingCandidateRemove", d.x.Pub())
